@@ -244,6 +244,25 @@ func c20Place(n c20Nil, pos string) ap.Item {
 		// a one-member list as the value of item-typed and list-typed properties (one-member lists are written compacted)
 		return &ap.Activity{ID: "https://example.com/act", Type: ap.CreateType, Object: ap.ItemCollection{n.it}, AttributedTo: ap.ItemCollection{n.it}, Audience: ap.ItemCollection{n.it},
 			Replies: ap.ItemCollection{n.it}, To: ap.ItemCollection{n.it}}
+	}
+	if strings.HasPrefix(pos, "all-props:") {
+		// the nil-like item as the value of every item-typed property, and as a member of every list-typed property, of one struct type
+		st := vocab.StructType(strings.TrimPrefix(pos, "all-props:"))
+		p := reflect.New(st)
+		p.Elem().FieldByName("ID").SetString("https://example.com/all-props")
+		p.Elem().FieldByName("Type").SetString(string(vocab.DefaultType[st.Name()]))
+		for _, f := range vocab.Fields(st) {
+			switch f.Kind {
+			case vocab.KItem:
+				var it ap.Item = n.it
+				p.Elem().Field(f.Index).Set(reflect.ValueOf(&it).Elem())
+			case vocab.KItems:
+				p.Elem().Field(f.Index).Set(reflect.ValueOf(ap.ItemCollection{ap.IRI("https://example.com/member"), n.it}))
+			}
+		}
+		return p.Interface().(ap.Item)
+	}
+	switch pos {
 	case "prop":
 		var it ap.Item = n.it
 		return &ap.Activity{ID: "https://example.com/act", Type: ap.CreateType, Actor: ap.IRI("https://example.com/actor"), Object: it, Target: it,
@@ -270,6 +289,9 @@ func c20Cells() []c20Cell {
 			}
 			if p == "prop" {
 				positions = append(positions, "prop-list1")
+				for _, st := range vocab.StructTypes {
+					positions = append(positions, "all-props:"+st.Name())
+				}
 			}
 		}
 		for _, n := range c20Nils {
